@@ -529,7 +529,9 @@ PROPS["C05"] = dict(
          "queries 1 / LDE-1 / LDE / 255, grinding 32, constraint count - is edited, z and the constraint evaluation are "
          "recomputed under the new seed with public Air methods, the first composition-column claim is overwritten so the "
          "out-of-domain equation holds and the nonce is re-ground: this reaches FriVerifier::new, the proof-of-work check, "
-         "draw_integers and the opening checks with a consistent transcript): Proof::from_bytes then verify under OptionSet, "
+         "draw_integers and the opening checks with a consistent transcript); multi-site edits (unique-query count lowered "
+         "to k with every opened table cut to k rows; field modulus resized / replaced; blowup lowered to 2): "
+         "Proof::from_bytes then verify under OptionSet, "
          "MinConjecturedSecurity(0) and MinProvenSecurity(0); every component decoder and parser (TraceInfo, ProofOptions, "
          "Context, Commitments, Queries, OodFrame, FriProof, BatchMerkleProof, digests, elements) on mutated component bytes "
          "with random parse parameters; isolated workers under release, overflow/debug-assertion and ASan builds: a panic, "
